@@ -479,6 +479,17 @@ def ite(c, x, y):
         return x if cv != 0 else y
     if x == y:
         return x
+    # one spelling per selection: a negated condition, `<=` and `!=` are the complement of `<`, `<` and `==` with the
+    # branches exchanged (on the reals; NaN operands are outside every property), so that `if_else(not c, b, a)`,
+    # `if_else(x <= k, b, a)` and `if_else(k < x, a, b)` are one value
+    a = c.single_atom()
+    if a is not None and c == Poly.atom(a):
+        if a.kind == "not" and isinstance(a.key[0], Poly):
+            return ite(a.key[0], y, x)
+        if a.kind == "le":
+            return ite(_cmp("lt", a.key[1], a.key[0]), y, x)
+        if a.kind == "ne":
+            return ite(_cmp("eq", a.key[0], a.key[1]), y, x)
     return opaque("ite", c, x, y)
 
 
@@ -733,14 +744,39 @@ def diag(a):
     return MatVal(a.r, 1, [[a.cells[i][i]] for i in range(a.r)], a.kind)
 
 
+def _split_offsets(n, inc):
+    """CasADi vertsplit/horzsplit second argument: an increment (default 1) or an explicit offset list [0, ..., n]."""
+    if not inc:
+        step = 1
+    else:
+        v = inc[0]
+        if isinstance(v, (list, tuple)):
+            offs = [int(x) for x in v]
+            if not offs or offs[0] != 0 or offs[-1] != n or any(b < a for a, b in zip(offs, offs[1:])):
+                raise InterpRaise("RuntimeError", "split: offsets %s do not partition [0, %d]" % (offs, n))
+            return offs
+        if isinstance(v, MatVal):
+            cv = v.s().const_value() if v.is_scalar() else None
+            if cv is None:
+                raise Unsupported("split with a symbolic increment")
+            v = cv
+        step = int(v)
+        if step < 1:
+            raise InterpRaise("RuntimeError", "split: increment must be positive")
+    offs = list(range(0, n, step))
+    return offs + [n]
+
+
 def vertsplit(a, *inc):
     a = to_mat(a)
-    return [MatVal(1, a.c, [a.cells[i][:]], a.kind) for i in range(a.r)]
+    offs = _split_offsets(a.r, inc)
+    return [MatVal(hi - lo, a.c, [a.cells[i][:] for i in range(lo, hi)], a.kind) for lo, hi in zip(offs, offs[1:])]
 
 
 def horzsplit(a, *inc):
     a = to_mat(a)
-    return [MatVal(a.r, 1, [[a.cells[i][j]] for i in range(a.r)], a.kind) for j in range(a.c)]
+    offs = _split_offsets(a.c, inc)
+    return [MatVal(a.r, hi - lo, [[a.cells[i][j] for j in range(lo, hi)] for i in range(a.r)], a.kind) for lo, hi in zip(offs, offs[1:])]
 
 
 def is_diagonal(a):
